@@ -59,10 +59,11 @@ func Profile() *world.Profile {
 	}
 	p.MwShapes = append([]int{}, p.Shapes...)
 	p.MwShapes[world.ShCtxIntStr], p.MwShapes[world.ShCtxIntErr], p.MwShapes[world.ShTeapot] = 0, 0, 0
-	p.Ops = make([]int, 24)
+	p.Ops = make([]int, world.NumOps)
 	for i, w := range map[int]int{world.OpYield: 5, world.OpWriteHeader: 0, world.OpWrite: 0, world.OpFlush: 0, world.OpNext: 4, world.OpNextSwallow: 1,
 		world.OpCancel: 0, world.OpMapExtra: 2, world.OpSeeExtra: 4, world.OpEcho: 0, world.OpMark: 4, world.OpCheckMark: 4, world.OpSetHeader: 3,
-		world.OpBefore: 1, world.OpRender: 1, world.OpRedirect: 0, world.OpStatus: 2, world.OpCookie: 1, world.OpSeeSvc: 2} {
+		world.OpBefore: 1, world.OpRender: 1, world.OpRedirect: 0, world.OpStatus: 2, world.OpCookie: 1, world.OpSeeSvc: 2,
+		world.OpMapIface: 1, world.OpSeeIface: 3, world.OpInvoke: 2, world.OpApply: 1} {
 		p.Ops[i] = w
 	}
 	return p
@@ -121,7 +122,7 @@ func (Engine) Run(t *tape.Tape, o eng.Opts) *eng.Result {
 
 	// Driver-side request clocks for virtual deadlines.
 	n := len(reqs)
-	cur := make([]int, n)     // index of the request task i is serving
+	cur := make([]int, n) // index of the request task i is serving
 	started := make([]int64, n)
 	fired := make([]bool, n)
 	for i := range cur {
